@@ -253,7 +253,7 @@ Qed.
 
 (** * expand_capacity *)
 Lemma pq_expand_spec lim L0 s a : pq_inv lim s -> pq_led lim L0 s a ->
-  exists st s' a', pq_expand s a = Ok (st, s', a') /\ pq_led lim L0 s' a' /\ plan a' = tl (plan a) /\
+  exists st s' a', pq_expand s a = Ok (st, s', a') /\ pq_led lim L0 s' a' /\ (plan a' = tl (plan a) \/ plan a' = plan a) /\
     ((st = CC_OK /\ pq_inv lim s' /\ pq_abs s' = pq_abs s /\ pq_size s' = pq_size s /\
       pq_cap s' = pq_cap s * pq_num s / pq_den s /\ pq_cap s < pq_cap s' /\
       pq_num s' = pq_num s /\ pq_den s' = pq_den s) \/
@@ -269,14 +269,14 @@ Proof.
   assert (HprodW : prod * 8 < W) by nia.
   replace (W <=? prod) with false by lia.
   destruct (prod <=? pq_cap s) eqn:Eov.
-  - (* D11 / overflow branch: CC_MAX_ELEMENTS slots are requested, which no allocator grants *)
-    assert (Hbig : wmul (W - 2) 8 = W - 16) by reflexivity. rewrite Hbig.
-    destruct (alloc_over_limit (pq_mem s) (W - 16) a) as [a1 Ea]; [lia|].
-    pose proof (alloc_cases (pq_mem s) (W - 16) a) as C. rewrite Ea in C. rewrite Ea.
-    destruct C as (Cl & Cn & Clim & _ & Cp).
-    exists CC_ERR_ALLOC, s, a1. split; [reflexivity|]. split; [|split; [assumption|right; auto]].
-    split; [congruence|]. split; [congruence|]. congruence.
+  - (* D11 / overflow branch: CC_MAX_ELEMENTS slots have no representable byte size: no request is made *)
+    unfold g_pq_expand_bytes, SIZE_MAX.
+    replace ((W - 1) / 8 <? W - 2) with true by reflexivity.
+    exists CC_ERR_ALLOC, s, a. split; [reflexivity|]. split; [|split; [right; reflexivity|right; auto]].
+    split; [assumption|]. split; assumption.
   - assert (Hgrow : pq_cap s < prod) by lia.
+    unfold g_pq_expand_bytes, SIZE_MAX.
+    replace ((W - 1) / 8 <? prod) with false by (unfold W in *; lia).
     assert (Hbytes' : wmul prod 8 = prod * 8) by (unfold wmul; apply N.mod_small; assumption).
     rewrite Hbytes'.
     pose proof (alloc_cases (pq_mem s) (prod * 8) a) as C.
@@ -298,7 +298,7 @@ Proof.
       { intros k Hk. unfold buf'. rewrite getN_app1 by lia. apply getN_firstnN; assumption. }
       assert (Hsl : forall k, k < pq_size s -> sl buf' k = sl (pq_buf s) k).
       { intros k Hk. unfold sl. rewrite Hget by assumption. reflexivity. }
-      do 3 eexists. split; [reflexivity|]. split; [|split; [congruence|left]].
+      do 3 eexists. split; [reflexivity|]. split; [|split; [left; congruence|left]].
       * split; [congruence|]. cbn [pq_blk pq_mem pq_hdr pq_cap]. rewrite Hbytes'. split; [exact Rl|lia].
       * split; [reflexivity|]. split; [|split; [|split; [reflexivity|split; [reflexivity|split; [exact Hgrow|split; reflexivity]]]]].
         -- constructor; cbn [pq_size pq_cap pq_num pq_den pq_buf]; try assumption; try lia.
@@ -308,7 +308,7 @@ Proof.
               rewrite !Hsl by lia. apply Hheap; assumption.
         -- unfold pq_abs. cbn [pq_size pq_buf]. apply map_ext_seqN. intros k Hk. apply Hsl. lia.
     + destruct C as (Cl & Cn & Clim & _ & Cp).
-      exists CC_ERR_ALLOC, s, a1. split; [reflexivity|]. split; [|split; [assumption|right; auto]].
+      exists CC_ERR_ALLOC, s, a1. split; [reflexivity|]. split; [|split; [left; assumption|right; auto]].
       split; [congruence|]. split; [congruence|]. congruence.
 Qed.
 
@@ -452,6 +452,7 @@ Proof.
   destruct (pq_factor n d) as [n' d'] eqn:Ef. cbn [fst snd] in *.
   unfold pq_bad_capacity. destruct (c =? 0) eqn:Ec; [cbn [orb]; discriminate|]. cbn [orb].
   destruct (CC_MAX_ELEMENTS / c * d' <=? n'); [discriminate|].
+  unfold g_pq_new_bytes, SIZE_MAX. replace ((W - 1) / 8 <? c) with false by (unfold W in *; lia).
   pose proof (alloc_cases mem PQ_HEADER_BYTES a) as C1.
   destruct (alloc mem PQ_HEADER_BYTES a) as [[h|] a1]; [|discriminate].
   destruct C1 as (-> & Hl1 & Hn1 & Hlim1 & _).
@@ -476,6 +477,7 @@ Lemma pq_new_refused_clean mem c n d a st a' :
 Proof.
   unfold pq_new. destruct (pq_factor n d) as [n' d'].
   destruct (pq_bad_capacity c n' d'); [intros H; inversion H; auto|].
+  destruct (g_pq_new_bytes c SIZE_MAX); [intros H; inversion H; auto|].
   pose proof (alloc_cases mem PQ_HEADER_BYTES a) as C1.
   destruct (alloc mem PQ_HEADER_BYTES a) as [[h|] a1].
   - destruct C1 as (-> & Hl1 & _).
@@ -511,6 +513,39 @@ Proof.
   destruct (pq_new_run_refines _ _ _ _ _ _ _ _ ops HcW Hlimm Hlimf Hd Hn) as (outs & s' & a'' & Hr & _ & _ & Hb).
   destruct (bag_run_conserves _ _ _ _ _ Hb) as (un & Hlen & Hp).
   exists outs, s', a'', un. auto.
+Qed.
+
+(** Since the byte-size repair the constructor is total over every machine-word capacity: [c * 8 < W] is
+    established by the constructor's own test, not assumed of the caller; the constructor never faults. *)
+Lemma pq_new_fits mem c n d a st s a' : pq_new mem c n d a = Ok (st, Some s, a') -> c * 8 < W.
+Proof.
+  unfold pq_new. destruct (pq_factor n d) as [n' d'].
+  destruct (pq_bad_capacity c n' d'); [discriminate|].
+  destruct (g_pq_new_bytes c SIZE_MAX) eqn:E; [discriminate|].
+  intros _. unfold g_pq_new_bytes, SIZE_MAX in E. unfold W in *. lia.
+Qed.
+
+Lemma pq_new_no_fault mem c n d a f : pq_new mem c n d a <> Fault f.
+Proof.
+  unfold pq_new. destruct (pq_factor n d) as [n' d'].
+  destruct (pq_bad_capacity c n' d'); [discriminate|].
+  destruct (g_pq_new_bytes c SIZE_MAX); [discriminate|].
+  pose proof (alloc_cases mem PQ_HEADER_BYTES a) as C1.
+  destruct (alloc mem PQ_HEADER_BYTES a) as [[h|] a1]; [|discriminate].
+  destruct C1 as (-> & Hl1 & _).
+  pose proof (alloc_cases mem (wmul c 8) a1) as C2.
+  destruct (alloc mem (wmul c 8) a1) as [[b|] a2]; [discriminate|].
+  destruct C2 as (Hl2 & _). rewrite Hl1 in Hl2.
+  destruct (release_head _ _ _ _ _ Hl2) as (a3 & -> & _). cbn [bind]. discriminate.
+Qed.
+
+Theorem pq_new_run_refines_total mem c n d a st s a' ops :
+  limit a < W - 16 -> limit a * fst (pq_factor n d) < W * snd (pq_factor n d) -> 0 < d ->
+  pq_new mem c n d a = Ok (st, Some s, a') ->
+  exists outs s' a'', pq_run cmp s a' ops = Ok (outs, s', a'') /\ pq_inv (limit a) s' /\
+    pq_led (limit a) (live a) s' a'' /\ bag_run [] ops outs (pq_abs s').
+Proof.
+  intros Hlimm Hlimf Hd Hn. eapply pq_new_run_refines; eauto. eapply pq_new_fits; eauto.
 Qed.
 
 (** * Draining: popping until empty yields the held multiset in non-increasing order *)
@@ -603,6 +638,8 @@ Proof.
     set (prod := pq_cap s * pq_num s / pq_den s) in *.
     replace (W <=? prod) with false in Ep by (unfold W in *; lia).
     replace (prod <=? pq_cap s) with false in Ep by lia.
+    unfold g_pq_expand_bytes, SIZE_MAX in Ep.
+    replace ((W - 1) / 8 <? prod) with false in Ep by (unfold W in *; lia).
     assert (Hb : wmul prod 8 = prod * 8) by (unfold wmul; apply N.mod_small; unfold W in *; lia).
     rewrite Hb in Ep.
     destruct (alloc_grants (pq_mem s) (prod * 8) a Hplan) as (a1 & Ea & _); [lia|].
